@@ -41,5 +41,10 @@ def run(chk):
             raise AnalysisBroken("C03-D5: %s is no longer in a foldable form" % name)
         nt += got
     chk.floor("C03-D5.tensor", nt, 40, "folded tensor-product value routines (function x dimension)")
+    from rules import c09
+    chk.rule("C03-D6.relations", "single-sample construction keeps the interpolant exact only if the incremental surplus update reaches every dependent point: getKid is the inverse of "
+                                 "getParent / getStepParent (obligations of C09-D4)")
+    nr6 = c09.hierarchy_relations(chk, db, "C03-D6.relations")
+    chk.floor("C03-D6.relations", nr6, 4, "local polynomial rules with closed-form hierarchy relations")
     return expl + (" Added: column/value agreement of the Kronecker Vandermonde pattern and the work-set selection of every grid method (the listed space, the evaluated surrogate and the weights "
                    "refer to the same point set); tensor-product structure of the basis value routines.")
